@@ -1,0 +1,61 @@
+//! Verification hook (C48). Add-only and behaviour neutral; only compiled with `verif-hooks`.
+//!
+//! Exposes the crate-private built-in entry definitions of `migration_data` for the
+//! two levels involved in the previous -> target upgrade, in the order in which
+//! `migrate_domain_1_11_to_1_12` / `migrate_domain_1_10_to_1_11` assert them.
+use crate::migration_data;
+use crate::prelude::*;
+
+/// (phase number, definition) in migration order for `level` (only the previous and the
+/// target level are known here; anything else yields `None`).
+pub fn builtin_defs(
+    level: DomainVersion,
+) -> Option<Result<Vec<(u8, EntryInitNew)>, OperationError>> {
+    fn collect(
+        p3: Vec<EntryInitNew>,
+        p4: Vec<EntryInitNew>,
+        p5: Result<Vec<EntryInitNew>, OperationError>,
+        p6: Result<Vec<EntryInitNew>, OperationError>,
+        p7: Vec<EntryInitNew>,
+    ) -> Result<Vec<(u8, EntryInitNew)>, OperationError> {
+        let mut out = Vec::new();
+        out.extend(p3.into_iter().map(|e| (3u8, e)));
+        out.extend(p4.into_iter().map(|e| (4u8, e)));
+        out.extend(p5?.into_iter().map(|e| (5u8, e)));
+        out.extend(p6?.into_iter().map(|e| (6u8, e)));
+        out.extend(p7.into_iter().map(|e| (7u8, e)));
+        Ok(out)
+    }
+    match level {
+        DOMAIN_LEVEL_1_11 => {
+            use migration_data::dl15 as d;
+            Some(collect(
+                d::phase_3_key_provider(),
+                d::phase_4_system_entries(),
+                d::phase_5_builtin_admin_entries(),
+                d::phase_6_builtin_non_admin_entries(),
+                d::phase_7_builtin_access_control_profiles(),
+            ))
+        }
+        DOMAIN_LEVEL_1_12 => {
+            use migration_data::dl_1_12 as d;
+            Some(collect(
+                d::phase_3_key_provider(),
+                d::phase_4_system_entries(),
+                d::phase_5_builtin_admin_entries(),
+                d::phase_6_builtin_non_admin_entries(),
+                d::phase_7_builtin_access_control_profiles(),
+            ))
+        }
+        _ => None,
+    }
+}
+
+/// The uuids removed by phase 8 of the migration to `level`.
+pub fn delete_uuids(level: DomainVersion) -> Option<Vec<Uuid>> {
+    match level {
+        DOMAIN_LEVEL_1_11 => Some(migration_data::dl15::phase_8_delete_uuids()),
+        DOMAIN_LEVEL_1_12 => Some(migration_data::dl_1_12::phase_8_delete_uuids()),
+        _ => None,
+    }
+}
